@@ -422,7 +422,7 @@ fn stress(rest: &str) -> String {
             hs.push(std::thread::spawn(move || {
                 for k in 0..per {
                     let spec = Arc::new(Spec {
-                        pid: (t + 1) * 100 + k,
+                        pid: t * per + k + 1,
                         wrong: false,
                         boxfail: false,
                         gate: false,
